@@ -43,6 +43,10 @@ pub enum ReqKind {
   Init { bad: bool },
   Add { docs: Vec<DocSpec> },
   Bulk { docs: Vec<DocSpec>, malformed: bool },
+  /// an NDJSON upload of `n` small documents L0..L(n-1), versions `first_ver`..;
+  /// bad: 0 all valid, 1 the last line is not JSON, 2 the last document has a wrong
+  /// value type, 3 a line in the middle is not JSON
+  AddLarge { n: u32, first_ver: u64, bad: u8 },
   Delete { ids: Vec<String> },
   Commit,
   Refresh,
@@ -347,11 +351,35 @@ fn gen_case(rng: &mut Rng, c24: bool, thorough: bool) -> HttpCase {
     reqs.push(Req { kind, t, fs_fault: None });
   }
   // C23: always end with a commit so that the queue model is observed
+  // swarm: one case in ten carries a large NDJSON upload (a thousand and more
+  // small documents in one /add), valid or with an invalid line late in the body
+  let mut max_body = MAX_BODY;
+  if !with_conc && rng.chance(1, 10) {
+    max_body = 512 * 1024;
+    let n = if rng.chance(1, 4) { 20 + rng.below(200) as u32 } else { 1000 + rng.below(900) as u32 };
+    let at = (reqs.len() - rng.usize(reqs.len().min(4))).max(1);
+    reqs.insert(
+      at.min(reqs.len()),
+      Req {
+        kind: ReqKind::AddLarge {
+          n,
+          first_ver: 6_000_000,
+          bad: *rng.pick(&[0u8, 0, 1, 2, 3]),
+        },
+        t: Transport {
+          content_length: rng.chance(1, 2),
+          chunks: if rng.chance(1, 2) { vec![4000] } else { Vec::new() },
+          ..Default::default()
+        },
+        fs_fault: None,
+      },
+    );
+  }
   // swarm: in one case of five the disk misbehaves: a storage primitive fails
   // (or, for C24, panics) while some of the requests are being served
   if !with_conc && rng.chance(1, 5) {
     for r in reqs.iter_mut() {
-      if !matches!(r.kind, ReqKind::Init { .. } | ReqKind::Healthz | ReqKind::Raw { .. }) && r.t.stall_after.is_none() && rng.chance(1, 3) {
+      if !matches!(r.kind, ReqKind::Init { .. } | ReqKind::Healthz | ReqKind::Raw { .. } | ReqKind::AddLarge { .. }) && r.t.stall_after.is_none() && rng.chance(1, 3) {
         r.fs_fault = Some(FsFault {
           at: { let hi = if rng.chance(1, 2) { 8 } else { 60 }; rng.below(hi) as u32 },
           kind: if c24 && rng.chance(1, 3) { "panic".into() } else { "eio".into() },
@@ -417,7 +445,7 @@ fn gen_case(rng: &mut Rng, c24: bool, thorough: bool) -> HttpCase {
   } else {
     None
   };
-  HttpCase { max_body: MAX_BODY, reqs, conc }
+  HttpCase { max_body, reqs, conc }
 }
 
 struct Built {
@@ -461,6 +489,30 @@ fn build(kind: &ReqKind) -> Built {
         if i == 0 {
           body.push('\n'); // blank lines are allowed
         }
+      }
+      Built {
+        method: "POST",
+        path: "/add".into(),
+        content_type: Some("application/x-ndjson".into()),
+        body: body.into_bytes(),
+      }
+    }
+    ReqKind::AddLarge { n, first_ver, bad } => {
+      let mut body = String::new();
+      for i in 0..*n {
+        if *bad == 3 && i == *n / 2 {
+          body.push_str("{\"_id\": \"broken\", \"body\": \n");
+        }
+        body.push_str(&doc_json(&DocSpec::Valid {
+          id: format!("L{}", i),
+          ver: *first_ver + i as u64,
+        }));
+        body.push('\n');
+      }
+      match bad {
+        1 => body.push_str("{\"_id\": \"tail\", \"body\": \n"),
+        2 => body.push_str("{\"_id\": \"tail\", \"body\": \"alpha\", \"n\": \"not a number\"}\n"),
+        _ => {}
       }
       Built {
         method: "POST",
@@ -530,7 +582,7 @@ fn build(kind: &ReqKind) -> Built {
     },
     ReqKind::Search { variant } => {
       let body = match variant {
-        0 => json!({"query": {"type": "match_all"}, "limit": 1000, "return_stored": true}).to_string(),
+        0 => json!({"query": {"type": "match_all"}, "limit": 100000, "return_stored": true}).to_string(),
         1 => json!({"query": {"type": "match_all"}, "limit": 0, "return_stored": true}).to_string(),
         2 => "{\"query\": {\"type\": \"match_all\"}, \"limit\": ".to_string(),
         3 => json!({"query": {"type": "term", "field": "body", "value": "alpha"}, "limit": 10, "return_stored": false}).to_string(),
@@ -685,7 +737,7 @@ fn success_shape_ok(kind: &ReqKind, body: &[u8]) -> bool {
   let Ok(v) = serde_json::from_slice::<Value>(body) else { return false };
   match kind {
     ReqKind::Init { .. } => v.get("created").map(|x| x.is_boolean()).unwrap_or(false),
-    ReqKind::Add { .. } | ReqKind::Bulk { .. } | ReqKind::Delete { .. } => v.get("queued").map(|x| x.is_u64()).unwrap_or(false),
+    ReqKind::Add { .. } | ReqKind::AddLarge { .. } | ReqKind::Bulk { .. } | ReqKind::Delete { .. } => v.get("queued").map(|x| x.is_u64()).unwrap_or(false),
     ReqKind::Commit => v.get("committed") == Some(&json!(true)),
     ReqKind::Refresh => v.get("refreshed") == Some(&json!(true)),
     ReqKind::Compact => v.get("compacted") == Some(&json!(true)),
@@ -701,6 +753,7 @@ fn kind_name(k: &ReqKind) -> &'static str {
   match k {
     ReqKind::Init { .. } => "init",
     ReqKind::Add { .. } => "add",
+    ReqKind::AddLarge { .. } => "add_large",
     ReqKind::Bulk { .. } => "bulk",
     ReqKind::Delete { .. } => "delete",
     ReqKind::Commit => "commit",
@@ -860,6 +913,7 @@ async fn run_async(case: &HttpCase, dir: &Path, pfs: &passfs::PassFs, stats: &mu
     let body_valid = match &req.kind {
       ReqKind::Add { docs } => docs.iter().all(is_valid),
       ReqKind::Bulk { docs, malformed } => !*malformed && docs.iter().all(is_valid),
+      ReqKind::AddLarge { bad, .. } => *bad == 0,
       ReqKind::Search { variant } => *variant != 2,
       _ => true,
     };
@@ -926,6 +980,16 @@ async fn run_async(case: &HttpCase, dir: &Path, pfs: &passfs::PassFs, stats: &mu
             }
           } else {
             Some(("invalid document -> 4xx", vec![400, 422]))
+          }
+        }
+        ReqKind::AddLarge { bad, .. } => {
+          stats.inc("probe.large_uploads");
+          if !initialised {
+            Some(("no index -> 404", vec![404]))
+          } else if *bad == 0 {
+            Some(("valid large add -> 200", vec![200]))
+          } else {
+            Some(("invalid document in a large add -> 4xx", vec![400, 422]))
           }
         }
         ReqKind::Bulk { docs, malformed } => {
@@ -1032,10 +1096,41 @@ async fn run_async(case: &HttpCase, dir: &Path, pfs: &passfs::PassFs, stats: &mu
         })
         .collect(),
       ReqKind::Delete { ids } => ids.iter().map(|id| QOp::Del { id: id.clone() }).collect(),
+      ReqKind::AddLarge { n, first_ver, .. } => (0..*n)
+        .map(|i| {
+          let id = format!("L{}", i);
+          let ver = *first_ver + i as u64;
+          let doc = make_doc(Profile::Basic, &id, ver);
+          QOp::Add {
+            id,
+            v: Version {
+              ver,
+              stored: stored_projection(Profile::Basic, &doc),
+            },
+          }
+        })
+        .collect(),
       _ => Vec::new(),
     };
     match &req.kind {
       ReqKind::Init { bad: false } if st.is_success() => initialised = true,
+      ReqKind::AddLarge { n, bad, .. } if st.is_success() => {
+        let queued = serde_json::from_slice::<Value>(&resp.body).ok().and_then(|v| v.get("queued").and_then(|q| q.as_u64())).unwrap_or(u64::MAX);
+        if *bad != 0 {
+          out.violations.push(Violation::new(
+            &["C23", "C24"],
+            "invalid-document-acknowledged",
+            name,
+            step,
+            format!("{} containing an invalid document was acknowledged with {} `{}`", what, st, body_txt),
+          ));
+        } else if queued != *n as u64 {
+          out.violations.push(Violation::new(&["C23"], "queued-count-wrong", name, step, format!("{} acknowledged {} documents, sent {}", what, queued, n)));
+        }
+        for a in alts.iter_mut() {
+          a.0.extend(own_ops.iter().cloned());
+        }
+      }
       ReqKind::Add { docs } | ReqKind::Bulk { docs, .. } if st.is_success() => {
         let n = docs.iter().filter(|d| is_valid(d)).count();
         let queued = serde_json::from_slice::<Value>(&resp.body).ok().and_then(|v| v.get("queued").and_then(|q| q.as_u64())).unwrap_or(u64::MAX);
